@@ -492,12 +492,21 @@ def forward_closure(ctx):
                         if mode != 'w' and any(isinstance(e, dict) and e.get('dc') == 'Variable' for e in pl['p']) and any(isinstance(e, dict) and e.get('n') == 'forward_requirements' for e in pl['p']):
                             held.add(s['place']['l'])
             readers = set()
+            held_at = {}
+            for i, j, s in b.stmts():
+                if s['k'] == 'assign' and not s['place']['p'] and s['place']['l'] in held:
+                    held_at.setdefault(s['place']['l'], set()).add(i)
             for bb, t in b.calls():
                 nm = strip_generics(t.get('decl') or t.get('callee') or '')
                 if not re.search(r'(::extend|::append|::push|::extend_from_slice|::require_forwards|::insert)$', nm):
                     continue
-                if any(op_local(a) is not None and (mirq.backslice(b, [op_local(a)]) & held) for a in t['args'][1:]):
-                    readers.add(bb)
+                for a in t['args'][1:]:
+                    if op_local(a) is None:
+                        continue
+                    # the read of the cell's list counts where it happens, provided what was read flows on to such a call (the call
+                    # itself may sit in a loop over the list and run zero times)
+                    for h in mirq.backslice(b, [op_local(a)]) & held:
+                        readers |= held_at.get(h, set())
             # helpers of the same type that read a cell's requirements count as readers at their call site
             for bb, t in b.calls():
                 for h in mir.find(strip_generics(t.get('callee') or '')):
